@@ -23,7 +23,7 @@ RULE = (
   "transition = simulating one item in the process; every history is executed in a fresh subprocess of the real implementation and "
   "compared bit-exactly with the target run alone"
 )
-BOUNDS = {"quick": "8 items, all histories of length <= 2 (64 ordered pairs + 8 solos)", "thorough": "10 items, length <= 3"}
+BOUNDS = {"quick": "8 items, all histories of length <= 2 (64 ordered pairs + 8 solos)", "thorough": "10 items: all histories of length <= 2 (110); 5 core items: all 125 histories of length 3"}
 ASSUMPTIONS = ["fresh subprocess per history; same kernel cache directory on disk (the on-disk cache is keyed by source hash)", "bit identity"]
 BUDGET = {"quick": 550, "thorough": 3400}
 SCENARIO_TIMEOUT = 1500
@@ -97,13 +97,22 @@ QUICK_NAMES = ["rich", "rich_ell_sparse", "small_cg", "boxes", "boxes_nonative",
 def scenarios(tier, seed):
   import itertools
 
-  L = 2 if tier == "quick" else 3
-  names = QUICK_NAMES if tier == "quick" else NAMES
   out = []
-  for target in names:
-    for n in range(0, L):
-      for prefix in itertools.product(names, repeat=n):
+  if tier == "quick":
+    for target in QUICK_NAMES:
+      for n in range(0, 2):
+        for prefix in itertools.product(QUICK_NAMES, repeat=n):
+          out.append(dict(history=list(prefix) + [target]))
+    return out
+  # thorough: all histories of length <= 2 over all items, and all histories of length 3 over the five items that share
+  # the most process-global state (each child process costs 10-25 s: 10^3 histories would not finish in the budget)
+  for target in NAMES:
+    for n in range(0, 2):
+      for prefix in itertools.product(NAMES, repeat=n):
         out.append(dict(history=list(prefix) + [target]))
+  core = ["rich", "boxes", "boxes_nonative", "convex", "convex_ccd4"]
+  for h in itertools.product(core, repeat=3):
+    out.append(dict(history=list(h)))
   return out
 
 
